@@ -4,6 +4,7 @@ From Coq Require Import List NArith ZArith.
 From Goit Require Import Bytes Obj Reflog ReflogFacts.
 From Goit Require Import World Repo BranchFacts JournalFacts.
 From Goit Require Import Bridge.
+From Goit Require Import ResetFacts.
 Import ListNotations.
 
 (* T0 (tie to the source): every regexp literal of the current Go source denotes
@@ -92,6 +93,13 @@ Theorem C11_reflog_total : forall w hl t fk,
   exists out, cmd_reflog (mkMS w t fk) = (Ok out, mkMS w t fk).
 Proof. exact reflog_total. Qed.
 
+(* the journal of EVERY reachable repository reads back — with no hypothesis on
+   the names used in the history: a command whose names the program refuses is
+   refused before it writes anything (ResetFacts.unclean_cmd_refused) *)
+Theorem C11_journal_reads_back_on_every_reachable_repository : forall w hl,
+  Inv.Reachable w -> World.w_hlog w = Some hl -> exists rs, Reflog.parse_reflog hl = Some rs.
+Proof. exact reachable_journal_parses. Qed.
+
 Print Assumptions C11_line_roundtrip.
 Print Assumptions C11_first_line_has_no_newline.
 Print Assumptions C11_append.
@@ -105,3 +113,4 @@ Print Assumptions C11_reflog_extends.
 Print Assumptions C11_head_entry.
 Print Assumptions C11_reflog_total.
 Print Assumptions C11_source_patterns_are_the_models.
+Print Assumptions C11_journal_reads_back_on_every_reachable_repository.
